@@ -189,9 +189,9 @@ let () =
         let trace =
           match Writer.init cfg with
           | Res.Ok st0 ->
-            let ((st, refused), stop) =
+            let (((st, refused), _failed), stop) =
               Writer.run_lenient Syntax.fmt_obj Stored.fmt_sd_concrete Stored.id_cipher Stored.id_cipher
-                fenc_table Stored.deflate_stored cfg st0 ops N0 [] in
+                fenc_table Stored.deflate_stored cfg st0 ops N0 [] false in
             Res.Ok (st, refused, stop)
           | Res.Err e -> Res.Err e in
         let refused_line refused =
